@@ -242,7 +242,9 @@ Proof.
         rewrite <- (app_nil_r D), k_seek_data_skip by (intros ? ? Hi; now apply HD in Hi).
         cbn [k_seek_data]. destruct (N.leb_spec len pos); [lia|].
         rewrite k_seek_hole_skip by (intros s0 e0 Hi; apply HD in Hi; lia).
-        cbn [k_seek_hole]. rewrite N.leb_refl. rewrite N.sub_diag.
+        cbn [k_seek_hole]. rewrite N.leb_refl.
+        destruct (N.leb_spec len pos) as [Hg|Hg]; [lia|]. rewrite N.ltb_irrefl. cbn [orb].
+        rewrite N.sub_diag.
         cbn [copy_bytes]. cbn [N.leb]. replace (0 <=? 0) with true by reflexivity.
         cbn [o_st o_trace o_rest out_app app].
         destruct f as [|f']; cbn [copy_sparse]; rewrite N.leb_refl; cbn.
@@ -262,6 +264,7 @@ Proof.
       rewrite k_seek_hole_skip by (intros s0 e0 Hi; apply HD in Hi; lia).
       cbn [k_seek_hole]. destruct (N.leb_spec len s); [lia|].
       destruct (N.ltb_spec s s); [lia|]. destruct (N.ltb_spec s e); [|lia].
+      destruct (N.leb_spec e pos) as [Hg1|Hg1]; [lia|]. destruct (N.ltb_spec e s) as [Hg2|Hg2]; [lia|]. cbn [orb].
       set (cb := copy_bytes (S (length ans)) bs (e - s) 0 s ans).
       destruct (o_st cb) eqn:Ecb.
       2-4: (intros Hst; rewrite Ecb in Hst; discriminate).
@@ -285,6 +288,45 @@ Proof.
         -- injection Hin as <- <-. left. lia.
         -- right. exists s', e'. split; assumption.
 Qed.
+
+(* ------------------------------------------------------------------ *)
+(* copy_sparse terminates whatever the seek calls answer (C07)          *)
+(* ------------------------------------------------------------------ *)
+Lemma copy_bytes_not_oof bs len w cur ans : o_st (copy_bytes (S (length ans)) bs len w cur ans) <> StOutOfFuel.
+Proof. apply copy_bytes_fuel. lia. Qed.
+
+Lemma out_app_st t o : o_st (out_app t o) = o_st o.
+Proof. destruct o; reflexivity. Qed.
+
+(* with the progress guard every iteration either ends the walk or moves pos strictly forward, so len - pos
+   iterations suffice for ANY answers of lseek/fstat (sd, sh) and of the copy calls (ans) *)
+Lemma copy_sparse_fuel : forall fuel bs len pos sd sh ans,
+  (N.to_nat (len - pos) < fuel)%nat -> o_st (copy_sparse fuel bs len pos sd sh ans) <> StOutOfFuel.
+Proof.
+  induction fuel as [|f IH]; intros bs len pos sd sh ans Hf; [lia|].
+  cbn [copy_sparse]. destruct (N.leb_spec len pos) as [Hle|Hlt]; [cbn; discriminate|].
+  destruct (next_segment sd sh len pos) as [[d h]|e]; [|cbn; discriminate].
+  destruct (N.leb_spec h pos) as [Hhp|Hhp]; cbn [orb]; [cbn; discriminate|].
+  destruct (N.ltb_spec h d) as [Hhd|Hhd]; [cbn; discriminate|].
+  pose proof (copy_bytes_not_oof bs (h - d) 0 d ans) as Hcb.
+  destruct (o_st (copy_bytes (S (length ans)) bs (h - d) 0 d ans)) eqn:Ecb; try (rewrite Ecb; discriminate); try congruence.
+  rewrite out_app_st. apply IH. lia.
+Qed.
+
+(* the walk as it was before repair 61ae7c3 spins: with answers a shrinking source produces (everything at or
+   after pos is gone: both seeks land on the new end T <= pos) no amount of fuel lets it finish *)
+Lemma copy_sparse_pinned_spins : exists bs len sd sh, forall fuel,
+  o_st (copy_sparse_pinned fuel bs len 0 sd sh []) = StOutOfFuel.
+Proof.
+  exists 4096, 10, (fun _ => SkOff 0), (fun _ => SkOff 0). induction fuel as [|f IH]; [reflexivity|].
+  cbn [copy_sparse_pinned]. change (10 <=? 0) with false. cbn [next_segment]. cbn [N.sub copy_bytes length].
+  change (0 - 0 <=? 0) with true. cbn [o_st o_trace o_rest]. rewrite out_app_st. exact IH.
+Qed.
+
+(* ... and the repaired walk reports the premature end on the same answers *)
+Lemma copy_sparse_shrunk_source_fails : forall fuel,
+  o_st (copy_sparse (S fuel) 4096 10 0 (fun _ => SkOff 0) (fun _ => SkOff 0) []) = StErr EPREMATURE.
+Proof. intros. reflexivity. Qed.
 
 (* ------------------------------------------------------------------ *)
 (* progress accounting (C12): a loop never reports more bytes copied    *)
@@ -322,4 +364,19 @@ Proof.
   - intros Hb. inversion Hb as [|? ? Hk Hb']; subst. cbn [fst snd moved r_len] in Hk.
     assert (done + k <= bytes) as Hd' by lia. specialize (IH flen off bytes (done + k) rest Hd' Hb').
     unfold total_moved in *. cbn [map sumN snd moved]. lia.
+Qed.
+
+(* ------------------------------------------------------------------ *)
+(* loop bounds that do not depend on the supply of answers (C07): the   *)
+(* number of kernel requests a block job issues is bounded by the size  *)
+(* of its block, whatever the kernel answers and however much fuel      *)
+(* ------------------------------------------------------------------ *)
+Lemma block_job_steps fuel : forall flen off bytes done ans,
+  N.of_nat (length (o_trace (block_job fuel flen off bytes done ans))) <= (bytes - done) + 1.
+Proof.
+  induction fuel as [|f IH]; intros flen off bytes done ans; cbn [block_job]; [cbn; lia|].
+  destruct ans as [|[k|e] rest]; cbn [o_trace length]; [lia| |lia].
+  destruct (N.eqb_spec k 0) as [->|Hk0]; cbn [o_trace length]; [lia|].
+  destruct (N.leb_spec bytes (done + k)) as [Hc|Hc]; cbn [o_trace out_cons length]; [lia|].
+  specialize (IH flen off bytes (done + k) rest). lia.
 Qed.
